@@ -1,5 +1,6 @@
 import Driver.Common
 import Driver.OpsBits
+import Driver.OpsDecoders
 open Panqec
 
 /-! Line protocol: one operation per input line, one output line per input line.
@@ -7,7 +8,7 @@ open Panqec
     (`none` = not my op); the first that answers wins. -/
 
 def handlers : List (List String → Option String) :=
-  [Drv.handleBits]
+  [Drv.handleBits, Drv.handleDecoders]
 
 def handle (line : String) : String :=
   let toks := (line.trimAscii.toString.splitOn " ").filter (· ≠ "")
